@@ -1,9 +1,9 @@
 ------------------------------ MODULE ChainRel ------------------------------
 (***************************************************************************)
 (* Two nodes executing the same blocks.  Node "A" additionally serves      *)
-(* off-chain requests (CheckTx, simulation, ABCI queries at any height,    *)
-(* RPC queries through historical contexts) between the block's ABCI       *)
-(* calls; node "B" never does.  C11 / C13: every block result and every    *)
+(* off-chain requests (CheckTx, simulation, ABCI queries at any committed  *)
+(* height, RPC queries through historical contexts) before a block,        *)
+(* between its DeliverTx calls and before its Commit; node "B" never does.   C11 / C13: every block result and every    *)
 (* committed state must be identical on both.                              *)
 (*                                                                         *)
 (* The model follows one keeper-cached record X (an application record:    *)
@@ -25,6 +25,7 @@
 EXTENDS Integers, Sequences, FiniteSets, TLC, Json
 
 CONSTANTS MaxBlocks,             \* blocks after the warm-up
+          MaxTx,                 \* transactions per block
           MaxOff,                \* off-chain requests per behaviour
           QueryCtxNotPrev,       \* TRUE = as the unrepaired code
           SimulateRunsMsgOnRoot  \* TRUE = as the unrepaired code
@@ -38,17 +39,18 @@ VARIABLES pool,       \* [Node -> Nat]    POKT moved into the application pool o
           cache,      \* [Node -> -1..2]  X in the process-global LRU
           committed,  \* [Node -> Seq(0..2)]  X at each committed height (index = block number)
           nblocks, noff,
+          inblk,      \* transactions delivered in the block that is being executed (0 = between blocks)
           diverged,   \* some block result or committed state differed so far
           hist
 
-vars == <<pool, root, cache, committed, nblocks, noff, diverged, hist>>
-view == <<pool, root, cache, committed, nblocks, noff, diverged>>
+vars == <<pool, root, cache, committed, nblocks, noff, inblk, diverged, hist>>
+view == <<pool, root, cache, committed, nblocks, noff, inblk, diverged>>
 
 Init ==
     /\ pool = [n \in Node |-> 0]
     /\ root = [n \in Node |-> ABSENT] /\ cache = [n \in Node |-> NONE]
     /\ committed = [n \in Node |-> <<>>]
-    /\ nblocks = 0 /\ noff = 0 /\ diverged = FALSE /\ hist = <<>>
+    /\ nblocks = 0 /\ noff = 0 /\ inblk = 0 /\ diverged = FALSE /\ hist = <<>>
 
 \* what a consensus-path read of X returns on node n (cache first, then the root store)
 Eff(n) == IF cache[n] # NONE THEN cache[n] ELSE root[n]
@@ -70,23 +72,30 @@ XferClass(n)  == IF Eff(n) = ABSENT THEN "fail" ELSE "ok"
 XferRoot(n)   == IF XferClass(n) = "ok" THEN ABSENT ELSE root[n]
 XferCache(n)  == IF XferClass(n) = "ok" THEN NONE ELSE Filled(n)
 
-\* ---- consensus: one block with one transaction, on both nodes --------------------
-Block(kind, lvl) ==
-    /\ nblocks < MaxBlocks
+\* ---- consensus, on both nodes: DeliverTx inside a block, then EndBlock + Commit --------
+\* (off-chain requests may come between any two of these ABCI calls)
+Deliver(kind, lvl) ==
+    /\ nblocks < MaxBlocks /\ inblk < MaxTx
     /\ LET cls == [n \in Node |-> IF kind = "stake" THEN StakeClass(n, lvl) ELSE XferClass(n)]
            r   == [n \in Node |-> IF kind = "stake" THEN StakeRoot(n, lvl) ELSE XferRoot(n)]
            ch  == [n \in Node |-> IF kind = "stake" THEN StakeCache(n, lvl) ELSE XferCache(n)]
            p   == [n \in Node |-> IF kind = "stake" THEN StakePool(n, lvl) ELSE pool[n]]
-           \* observable difference: result code, committed record, committed coins
-           d   == Ok(cls["A"]) # Ok(cls["B"]) \/ r["A"] # r["B"] \/ p["A"] # p["B"]
+           d   == Ok(cls["A"]) # Ok(cls["B"])          \* observable at once: the result code
        IN /\ root' = r /\ cache' = ch /\ pool' = p
-          /\ committed' = [n \in Node |-> Append(committed[n], r[n])]
           /\ diverged' = (diverged \/ d)
-          /\ hist' = Append(hist, [a |-> "block", kind |-> kind, lvl |-> lvl, clsA |-> cls["A"], clsB |-> cls["B"], div |-> d])
-    /\ nblocks' = nblocks + 1 /\ UNCHANGED noff
+          /\ hist' = Append(hist, [a |-> "tx", kind |-> kind, lvl |-> lvl, clsA |-> cls["A"], clsB |-> cls["B"], div |-> d])
+    /\ inblk' = inblk + 1 /\ UNCHANGED <<committed, nblocks, noff>>
+
+Commit ==
+    /\ inblk >= 1
+    /\ LET d == root["A"] # root["B"] \/ pool["A"] # pool["B"] IN     \* observable: the app hash
+       /\ committed' = [n \in Node |-> Append(committed[n], root[n])]
+       /\ diverged' = (diverged \/ d)
+       /\ hist' = Append(hist, [a |-> "commit", div |-> d])
+    /\ nblocks' = nblocks + 1 /\ inblk' = 0 /\ UNCHANGED <<root, cache, pool, noff>>
 
 \* ---- off-chain requests, node A only -------------------------------------------
-Off(rec) == noff < MaxOff /\ noff' = noff + 1 /\ hist' = Append(hist, rec) /\ UNCHANGED <<committed, nblocks, diverged>>
+Off(rec) == noff < MaxOff /\ noff' = noff + 1 /\ hist' = Append(hist, rec) /\ UNCHANGED <<committed, nblocks, inblk, diverged>>
 
 \* RPC query through Context.PrevCtx(h): no effect on consensus-visible state
 RpcQuery(h) ==
@@ -118,8 +127,9 @@ Simulate(lvl) ==
          ELSE UNCHANGED <<root, pool>> /\ cache' = [cache EXCEPT !["A"] = Filled("A")]
 
 Next ==
-    \/ \E lvl \in 1..2 : Block("stake", lvl)
-    \/ Block("transfer", 0)
+    \/ \E lvl \in 1..2 : Deliver("stake", lvl)
+    \/ Deliver("transfer", 0)
+    \/ Commit
     \/ \E h \in 1..MaxBlocks : RpcQuery(h) \/ AbciQuery(h)
     \/ \E lvl \in 1..2 : CheckTx(lvl) \/ Simulate(lvl)
 
